@@ -14,6 +14,7 @@
 package conn
 
 import (
+	"encoding/binary"
 	"errors"
 	"fmt"
 	"net"
@@ -51,13 +52,34 @@ func (rb RemoteBitfields) unmarshalBinary(rbBytes map[string][]byte) error {
 		if err != nil {
 			return fmt.Errorf("peer id: %s", err)
 		}
-		bitfield := bitset.New(0)
-		if err := bitfield.UnmarshalBinary(bitfieldBytes); err != nil {
+		bitfield, err := unmarshalBitfield(bitfieldBytes)
+		if err != nil {
 			return err
 		}
 		rb[peerID] = bitfield
 	}
 	return nil
+}
+
+// unmarshalBitfield decodes a bitfield received from a remote peer. The encoding
+// starts with the number of bits; bitset allocates that many bits before reading
+// the words, so the declared length is checked against the bytes actually
+// received first.
+func unmarshalBitfield(b []byte) (*bitset.BitSet, error) {
+	const header = 8
+	if len(b) < header {
+		return nil, errors.New("bitfield: missing length header")
+	}
+	numBits := binary.BigEndian.Uint64(b[:header])
+	if numBits > uint64(len(b)-header)*8 {
+		return nil, fmt.Errorf(
+			"bitfield: declared %d bits but only %d bytes follow", numBits, len(b)-header)
+	}
+	bitfield := bitset.New(0)
+	if err := bitfield.UnmarshalBinary(b); err != nil {
+		return nil, err
+	}
+	return bitfield, nil
 }
 
 // handshake contains the same fields as a protobuf bitfield message, but with
@@ -114,8 +136,8 @@ func handshakeFromP2PMessage(m *p2p.Message) (*handshake, error) {
 	if err != nil {
 		return nil, fmt.Errorf("name: %s", err)
 	}
-	bitfield := bitset.New(0)
-	if err := bitfield.UnmarshalBinary(bitfieldMsg.BitfieldBytes); err != nil {
+	bitfield, err := unmarshalBitfield(bitfieldMsg.BitfieldBytes)
+	if err != nil {
 		return nil, err
 	}
 	remoteBitfields := make(RemoteBitfields)
